@@ -100,3 +100,224 @@ reg("C01",
     "judged. Four WHERE-lowering defects are known findings recognised by an "
     "AST fact of the source plus a passing hazard-free twin.",
     "DESIGN.md §5 C01")
+
+reg("C02",
+    "output monitors on the real FortranWriter over enumerated + random "
+    "PSyIR expression trees: read-back structural equality, gfortran "
+    "-std=f2008 acceptance, exact value comparison",
+    "Every numeric tree to depth 3 over {+,-,*,/,**,unary -,+} x 3-4 leaves "
+    "is built through the PSyIR API, written, read back by the real reader "
+    "(must equal the tree in reader-normal form), compiled with gfortran "
+    "-std=f2008 -pedantic-errors and (sampled) evaluated, the value compared "
+    "with my exact evaluator; random trees to depth 5-6 add relational/"
+    "logical operators, intrinsics, array and integer operands. Exhaustive "
+    "within the stated bound, sampled beyond.",
+    "Trusts PSyIR Node.__eq__ for structural equality and my exact "
+    "evaluator (values a=3,b=-2,i=5). Known: unary operator left of */ is "
+    "not bracketed (value-preserving), double literal without exponent; "
+    "each needs its hazard-free twin to pass.",
+    "DESIGN.md §5 C02")
+
+reg("C03",
+    "text-stability monitor W(R(W(R(src)))) == W(R(src)) on the real "
+    "reader/writer over generated programs and the repository's Fortran "
+    "corpus",
+    "Generated F-lite programs and every .f90/.F90/.x90 file under "
+    "tests/test_files, examples and tutorial that the reader accepts are "
+    "written, read back and written again; texts must be identical and the "
+    "first text must be readable. Sampled (quick: 480 corpus files), all "
+    "corpus files in the thorough tier.",
+    "No model: pure function of the real reader/writer. Known diff shapes "
+    "(only added widxN declarations after a WHERE fallback; only the name "
+    "order inside public::/private:: statements) are recognised by "
+    "predicates on the diff.",
+    "DESIGN.md §5 C03")
+
+reg("C04",
+    "compiler + execution monitors on code written from API-built symbol "
+    "tables (random insertion order, dependent constants, clashing inner "
+    "scopes)",
+    "Routines are built through the PSyIR API with constants depending on "
+    "constants via initial values, array bounds, kind parameters and "
+    "unsupported-type declarations, a derived type, and inner loop-body "
+    "scopes whose symbols clash (also only by case) with routine-level "
+    "names; the written module must compile with -fimplicit-none, declare "
+    "no name twice, and an execution capture test must observe exactly the "
+    "values my construction assigned to each symbol.",
+    "Transformation outputs are additionally compiled by C05/C06/C07 and "
+    "PSy layers by C20/C21/C24/C25. A writer refusal is counted, not judged.",
+    "DESIGN.md §5 C04")
+
+_XF = ("differential execution of accepted transformations: re-written "
+       "untransformed module vs transformed module, gfortran -fcheck=all, "
+       "inputs vetted by a reference interpreter validated against gfortran")
+
+reg("C05", _XF,
+    "Every applicable (transformation, target, option) attempt among "
+    "LoopFuse/LoopSwap/ChunkLoop/LoopTiling2D/Hoist/HoistLoopBoundExpr/"
+    "ReplaceInductionVariables/FoldConditionalReturnExpressions is made on "
+    "a fresh tree of scenario kernels (35% with one planted hazard) and "
+    "generic kernels; accepted results are compiled and run on inputs incl. "
+    "n=0,1 and stdout compared exactly. Sampled programs.",
+    "Known findings need the planted hazard's twin to pass, or (generic "
+    "kernels) a dynamic fact of the ORIGINAL program from the reference "
+    "interpreter (dependence reversed by interchange, fusion-preventing "
+    "dependence, loop zero-trip on exactly the failing inputs).",
+    "DESIGN.md §5 C05")
+
+reg("C06", _XF,
+    "As C05 for ArrayAssignment2Loops, Reference2ArrayRange, "
+    "ArrayAccess2Loop, AllArrayAccess2Loop, Abs/Sign/Min/Max2Code (real "
+    "scalar arguments only: their documented domain), DotProduct/Matmul2Code "
+    "and Sum/Product/Minval/Maxval2Loop on section assignments (overlapping, "
+    "strided, 2-D, whole-array), masks, DIM and empty extents.",
+    "Signed zeros normalised; values exactly representable. Known: "
+    "overlapping same-array sections lowered to a forward loop (twin with a "
+    "different source array passes).",
+    "DESIGN.md §5 C06")
+
+reg("C07", _XF,
+    "InlineTrans on every subroutine and function call of generated caller/"
+    "callee pairs (element / scalar / whole-array / section / expression "
+    "actuals, callee locals clashing with caller names); accepted results "
+    "compiled and run on inputs incl. n=0,1.",
+    "Known: element and its index variable both passed and the callee "
+    "changes the index first (twin whose callee leaves the index alone "
+    "passes).",
+    "DESIGN.md §5 C07")
+
+reg("C08",
+    "offline Bernstein-condition checker over the reference interpreter's "
+    "per-iteration access trace for loops the real DependencyTools calls "
+    "parallelisable; sys.monitoring step bound on every analysis call",
+    "Loops with subscripts i, i±1, i/2, mod, index arrays, 2i, n-i+1, "
+    "i+s1, i+d_i, private/conditional scalars and reductions are analysed "
+    "by the real can_loop_be_parallelised under a LINE-event step monitor "
+    "(termination decided on steps, 300k per line); loops reported "
+    "parallelisable are traced on up to 8 inputs and every pair of "
+    "iterations checked for a conflicting location.",
+    "A verdict needs a concrete iteration pair and location; the "
+    "interpreter is compared with gfortran on a sample each run. Known: "
+    "conditionally written scalar, integer-division subscripts.",
+    "DESIGN.md §5 C08")
+
+reg("C09",
+    "real OpenMP executions (1/2/4/8 threads x schedules) + team emulation "
+    "in the reference interpreter driven by the emitted data-sharing "
+    "clauses",
+    "Loops accepted by OMPParallelLoopTrans / OMPLoopTrans+OMPParallelTrans "
+    "without force are (a) compiled with -fopenmp and run under thread "
+    "counts and OMP_SCHEDULE values, (b) executed by the interpreter as "
+    "teams of 2-4 threads with private/firstprivate copies exactly as the "
+    "emitted directive says, under random iteration-to-thread assignments "
+    "and interleavings (each is a legal OpenMP execution); shared results "
+    "must equal the serial run.",
+    "Emulation interleaves whole iterations; clause variables are masked "
+    "after the region. Known: conditionally written scalar privatised.",
+    "DESIGN.md §5 C09")
+
+reg("C10",
+    "pushdown monitor over emitted directive lines + gfortran -fopenmp "
+    "-fopenacc acceptance after random histories of accepted "
+    "transformations",
+    "Random histories (<=6/<=10) over 17 OpenMP/OpenACC/structural "
+    "transformations with option variants on generated kernels; the text "
+    "the writer emits must satisfy the structural rules (enclosing parallel "
+    "region, no nested parallel/compute regions, matching ends, collapse "
+    "depth) and compile. Refusals are the allowed alternative.",
+    "Histories use one directive family (mixing OpenMP and OpenACC in one "
+    "routine is not explored). Known findings are keyed by the canonical "
+    "nesting code (inner-in-outer) produced by my monitor.",
+    "DESIGN.md §5 C10")
+
+reg("C11",
+    "offline comparison of the reference interpreter's per-statement "
+    "read/write trace with the real VariablesAccessInfo",
+    "For every assignment, loop, IF block and call (module subroutines with "
+    "intent in/out/inout, a PURE subroutine, functions, RANDOM_NUMBER, "
+    "MVBITS) that executed on some input, each variable actually read "
+    "(written) must be reported read (written); assignments reading their "
+    "own target must report the read first.",
+    "Variable-name granularity; statement<->node mapping by pre-order "
+    "position, verified by counts. Known: PURE subroutine intent(out) "
+    "argument reported read-only (a fix contradicts an existing test).",
+    "DESIGN.md §5 C11")
+
+reg("C12",
+    "region replay in the reference interpreter from a state poisoned "
+    "outside the reported inputs",
+    "Every sampled contiguous region (<=6 top-level statements) of "
+    "generated kernels is analysed by the real get_in_out_parameters and "
+    "replayed with every non-input variable poisoned: a poison read is a "
+    "missing input, an unreported write a missing output, a poisoned or "
+    "different reported output shows the inputs do not reproduce the "
+    "outputs.",
+    "Interpreter compared with gfortran on a sample each run. Known: "
+    "partial array write / conditional write treated as defining the "
+    "variable.",
+    "DESIGN.md §5 C12")
+
+reg("C13",
+    "device-store model in the reference interpreter driven by the emitted "
+    "copyin/copyout/copy clauses",
+    "Regions accepted by ACCKernelsTrans+ACCDataTrans are executed with a "
+    "separate device store exactly as the emitted '!$acc data' clauses "
+    "dictate; host arrays after the region must equal the host-only run. "
+    "gfortran's host fallback shares memory, so the real binary cannot show "
+    "this: the model is the monitor (stated limitation).",
+    "30-line device model (copyin/copyout/copy, implicit copy for "
+    "unlisted arrays, scalars shared). Known: partially written array in "
+    "copyout.",
+    "DESIGN.md §5 C13")
+
+reg("C15",
+    "identity/equality/resolution monitors on the real Node.copy() + "
+    "text-before/after monitor under edit histories",
+    "Random subtrees of templates (kind parameters, parameter-dependent "
+    "bounds, initial values), scenario kernels and generic kernels are "
+    "copied: copy == original, no shared node or symbol object, every "
+    "reference inside the copy (also inside datatypes) resolves to the "
+    "copy's own symbols; edit histories on one tree must leave the other's "
+    "written code unchanged.",
+    "Known: symbols referenced inside copied datatypes still belong to the "
+    "original scope.",
+    "DESIGN.md §5 C15")
+
+reg("C23",
+    "invariant monitor evaluated after every accepted LFRic transformation "
+    "in random histories",
+    "Histories of colouring, OpenMP/OpenACC loop+region, redundant "
+    "computation and move transformations on the invokes of the "
+    "repository's LFRic algorithm files (dm on/off): a loop under a loop "
+    "directive containing a kernel that increments (INC/READINC) a field on "
+    "a continuous/any_space function space (from the metadata) must be a "
+    "colour loop; no colours loop has a parallel ancestor.",
+    "Continuity from the metadata function-space name. Known: region "
+    "transformations enclosing an existing colours loop.",
+    "DESIGN.md §5 C23")
+
+reg("C26",
+    "before/after fingerprint monitor around every refused apply() of every "
+    "concrete Transformation class",
+    "Each (class, node or sibling list, option dict) attempt runs on a "
+    "fresh tree of generated kernels (all scenario generators + generic) and "
+    "of LFRic/GOcean invoke schedules; after a TransformationError the node "
+    "structure, every symbol table and (generic PSyIR) the written text "
+    "must be unchanged. Refusal-site reach is measured against an AST scan "
+    "of the sources.",
+    "Other exception types are counted, not judged. Known: lazy LFRic "
+    "materialisation (only symbols added / NOT_INITIALISED bounds "
+    "replaced).",
+    "DESIGN.md §5 C26")
+
+reg("C28",
+    "offline checker over the event log of a checking PSyData stub library "
+    "linked into instrumented programs",
+    "Kernels with EXIT/CYCLE/RETURN are instrumented by the real Profile/"
+    "Extract/NanTest/ReadOnlyVerify transformations on random statement "
+    "ranges, compiled against my logging stub and run; per execution the "
+    "events must be properly nested, matched per handle, follow the call "
+    "protocol, leave no region open and use unique region names.",
+    "The stub is mine (jinja absent). Known: a wrapped range containing an "
+    "EXIT/CYCLE/RETURN is left without PostEnd.",
+    "DESIGN.md §5 C28")
